@@ -24,7 +24,7 @@ func init() {
 			"C04.7 (=C16.2) a ConnectionBind naming another user's connection id has no effect on that connection: the single-use flag is consumed only after the user test; " +
 			"C04.8 every table shared by the clients of a listener (map fields of Manager, Server, Request) is keyed by a type that is or contains the 5-tuple fingerprint; " +
 			"C04.6 package server obtains *Allocation values only from the keyed lookups and CreateAllocation; " +
-			"C04.9 requests are handled on the read loop's own goroutine, or a hand-off to goroutines is conditioned on a per-5-tuple busy table. C04.10 (=C06.9) Manager.DeleteAllocation is called only where an allocation's own life ends (closed set of call sites classified by what is deleted and under which condition). C04.11 (=C20.4) SO_REUSEPORT only on the TCP paths: no two live allocations share a relayed address.",
+			"C04.9 requests are handled on the read loop's own goroutine, or a hand-off to goroutines is conditioned on a per-5-tuple busy table. C04.10 (=C06.9) Manager.DeleteAllocation is called only where an allocation's own life ends (closed set of call sites classified by what is deleted and under which condition). C04.11 (=C20.4) SO_REUSEPORT only on the TCP paths: no two live allocations share a relayed address. C04.12 (=C03.4) effects of the owner-gated handlers, deferred ones included, are dominated by the owner lookup.",
 		NotCovered: "interleavings beyond the necessary condition of C04.9 (that a per-client busy table is maintained correctly; the check-then-insert window between GetAllocation and the insert if handlers of one 5-tuple did run concurrently); cross-talk through operator callbacks.",
 		Run:        runC04,
 	})
@@ -42,6 +42,7 @@ func runC04(c *Ctx) {
 	ruleOneHandlerPerTuple(c, "C04.9")
 	ruleWhoMayDeleteAllocation(c, "C04.10")
 	ruleReusePortSites(c, "C04.11")
+	ruleOwnerCheck(c, "C04.12", c.W.authedHandlers(nil, "C04.12"))
 }
 
 // ruleOneHandlerPerTuple (C04.9). The handlers decide by check-then-act on the allocation table
